@@ -52,6 +52,8 @@ func shortFile(f string) string {
 }
 
 type Gen struct {
+	lentAt map[ssa.Value]map[ssa.Instruction]bool // allocation -> calls that borrow it
+	escCache map[ssa.Value][]ssa.Instruction // allocation -> uses through which its reference may escape
 	applyLines map[int][]*AtCall // source line -> lemma applications (apply-at)
 	loopEntry map[*loopInfo]*State // state in which each loop was entered
 	sliceLos []string // lower bounds of slice expressions seen so far (instantiation candidates)
@@ -784,9 +786,9 @@ func (g *Gen) loopHead(li *loopInfo, st *State, reach string) *State {
 	spec := g.loopSpec(li)
 	pos := li.pos
 	if spec == nil {
-		if !g.pa {
-			g.fail(pos, "loop %d has no invariant", li.ord)
-		}
+		// no invariant given: everything the loop writes is unknown afterwards (sound; termination of
+		// such a loop is not checked)
+		g.unmodelled[fmt.Sprintf("loop %d without invariant: written state havoc'd, termination unchecked", li.ord)] = true
 		spec = &LoopSpec{}
 	}
 	// inv-init
@@ -1463,6 +1465,301 @@ func (g *Gen) bindApplyLines() {
 		}
 		if found != 1 {
 			panic(bindError{fmt.Sprintf("apply-at %q: fragment occurs %d times in %s (need exactly one)", ac.AtText, found, g.key)})
+		}
+	}
+}
+
+// ---------------------------------------------------------------------------
+// Objects that are still private to the function at a call: a map, slice or struct allocated by
+// this function whose reference has not been handed to anybody (stored, passed, captured,
+// converted, returned, sliced, appended) on any path that can reach the call cannot be changed by
+// the callee, whatever the callee's frame says.
+
+func (g *Gen) escapingUses(a ssa.Value) []ssa.Instruction {
+	if g.escCache == nil {
+		g.escCache = map[ssa.Value][]ssa.Instruction{}
+	}
+	if e, ok := g.escCache[a]; ok {
+		return e
+	}
+	var out []ssa.Instruction
+	derivedOK := func(d ssa.Value) bool {
+		rs := d.Referrers()
+		if rs == nil {
+			return false
+		}
+		for _, r := range *rs {
+			switch u := r.(type) {
+			case *ssa.Store:
+				if u.Addr != d || u.Val == d {
+					return false
+				}
+			case *ssa.UnOp:
+				if u.Op != token.MUL {
+					return false
+				}
+			case *ssa.DebugRef:
+			default:
+				return false
+			}
+		}
+		return true
+	}
+	// alias values: a itself and every load from a non-escaping local cell that a was stored into
+	aliases := []ssa.Value{a}
+	isAlias := map[ssa.Value]bool{a: true}
+	seenCell := map[*ssa.Alloc]bool{}
+	for k := 0; k < len(aliases); k++ {
+		v := aliases[k]
+		rs := v.Referrers()
+		if rs == nil {
+			continue
+		}
+		for _, r := range *rs {
+			ok := false
+			switch u := r.(type) {
+			case *ssa.MapUpdate:
+				ok = u.Map == v && !isAlias[u.Key] && !isAlias[u.Value]
+			case *ssa.Lookup:
+				ok = u.X == v && !isAlias[u.Index]
+			case *ssa.Range, *ssa.DebugRef:
+				ok = true
+			case *ssa.IndexAddr:
+				ok = u.X == v && !isAlias[u.Index] && derivedOK(u)
+			case *ssa.FieldAddr:
+				ok = u.X == v && derivedOK(u)
+			case *ssa.Index:
+				ok = u.X == v && !isAlias[u.Index]
+			case *ssa.Field:
+				ok = true
+			case *ssa.Store:
+				if u.Addr == v && !isAlias[u.Val] {
+					ok = true
+				} else if cell, isCell := u.Addr.(*ssa.Alloc); isCell && !cell.Heap && u.Val == v {
+					// stored into a local variable: follow the loads of that variable
+					ok = true
+					if !seenCell[cell] {
+						seenCell[cell] = true
+						if crs := cell.Referrers(); crs != nil {
+							for _, cr := range *crs {
+								switch cu := cr.(type) {
+								case *ssa.UnOp:
+									if cu.Op == token.MUL && !isAlias[cu] {
+										isAlias[cu] = true
+										aliases = append(aliases, cu)
+									}
+								case *ssa.Store:
+									if cu.Addr != cell {
+										out = append(out, cr)
+									}
+								case *ssa.DebugRef:
+								default:
+									out = append(out, cr)
+								}
+							}
+						}
+					}
+				}
+			case *ssa.UnOp:
+				ok = u.Op == token.MUL
+			case *ssa.MakeInterface:
+				// boxing: the interface value is another name for the same object
+				ok = true
+				if !isAlias[u] {
+					isAlias[u] = true
+					aliases = append(aliases, u)
+				}
+			case *ssa.Call:
+				if b, isB := u.Call.Value.(*ssa.Builtin); isB {
+					switch b.Name() {
+					case "len", "cap", "delete":
+						ok = true
+					}
+				} else if g.borrowedArg(u, v) {
+					// lent to a callee that does not retain it: changed by that call only
+					ok = true
+					if g.lentAt == nil {
+						g.lentAt = map[ssa.Value]map[ssa.Instruction]bool{}
+					}
+					if g.lentAt[a] == nil {
+						g.lentAt[a] = map[ssa.Instruction]bool{}
+					}
+					g.lentAt[a][u] = true
+				}
+			}
+			if !ok {
+				out = append(out, r)
+			}
+		}
+	}
+	g.escCache[a] = out
+	return out
+}
+
+// borrowedArg: v is passed to a statically known callee only in parameters that the callee's contract
+// declares as borrowed (not retained after the call).
+func (g *Gen) borrowedArg(call *ssa.Call, v ssa.Value) bool {
+	callee := call.Call.StaticCallee()
+	if callee == nil || call.Call.IsInvoke() {
+		return false
+	}
+	con, ok := g.cs.Funcs[funcKey(callee)]
+	if !ok || len(con.Borrows) == 0 {
+		return false
+	}
+	found := false
+	for i, a := range call.Call.Args {
+		if a != v {
+			continue
+		}
+		if i >= len(callee.Params) || !containsStr(con.Borrows, callee.Params[i].Name()) {
+			return false
+		}
+		found = true
+	}
+	if found {
+		g.trusted["borrows: "+funcKey(callee)+" does not retain "+strings.Join(con.Borrows, ", ")+" after it returns (assumed)"] = true
+	}
+	return found
+}
+
+// canPrecede: instruction e may execute before (or is) instruction c on some path.
+func (g *Gen) canPrecede(e, c ssa.Instruction) bool {
+	if e == c {
+		return true
+	}
+	eb, cb := e.Block(), c.Block()
+	if eb == cb {
+		ei, ci := -1, -1
+		for i, in := range eb.Instrs {
+			if in == e {
+				ei = i
+			}
+			if in == c {
+				ci = i
+			}
+		}
+		if ei < ci {
+			return true
+		}
+	}
+	// a path of length >= 1 from eb to cb
+	seen := map[*ssa.BasicBlock]bool{}
+	var stack []*ssa.BasicBlock
+	stack = append(stack, eb.Succs...)
+	for len(stack) > 0 {
+		b := stack[len(stack)-1]
+		stack = stack[:len(stack)-1]
+		if seen[b] {
+			continue
+		}
+		seen[b] = true
+		if b == cb {
+			return true
+		}
+		stack = append(stack, b.Succs...)
+	}
+	return false
+}
+
+func (g *Gen) keepPrivate(preHeaps map[string]string, st *State, at ssa.Instruction) {
+	// unexported fields of packages whose code the callee cannot reach
+	if call, ok := at.(*ssa.Call); ok {
+		if callee := call.Call.StaticCallee(); callee != nil && !call.Call.IsInvoke() {
+			for k, cur := range st.heaps {
+				if !strings.HasPrefix(k, "S.") {
+					continue
+				}
+				pre, okp := preHeaps[k]
+				if !okp {
+					pre = g.heapInit(k, g.heapSortsM[k]) // not touched before the call: still the entry heap
+				}
+				if cur == pre {
+					continue
+				}
+				keep := false
+				if owner, ok := g.fieldOwner[k]; ok && !g.prog.mayReachPackage(callee, owner) {
+					keep = true
+				}
+				if !keep && !g.prog.mayWriteField(callee, k) {
+					keep = true
+				}
+				if os.Getenv("GOVC_DEBUG_FRAME") != "" {
+					fmt.Fprintf(os.Stderr, "frame: %s at call %s: keep=%v (%s)\n", k, funcKey(callee), keep, g.prog.whyMayWrite(callee, k))
+				}
+				if keep {
+					st.heaps[k] = pre
+					g.trusted["a struct field is written only by functions that contain a store to it (directly, through a derived address, or by overwriting the whole struct) and only by code of its own package or, if exported, of packages that transitively import it; reflective writes only by the json/gob/xml/yaml/toml decoders (a callee that can reach one keeps nothing), none through unsafe: field heaps are kept across calls that cannot reach such code in the VTA-refined CHA call graph"] = true
+				}
+			}
+		}
+	}
+	changed := false
+	for k, v := range st.heaps {
+		if preHeaps[k] != v {
+			changed = true
+		}
+	}
+	if !changed {
+		return
+	}
+	heapBefore := func(k string) string {
+		if v, ok := preHeaps[k]; ok {
+			return v
+		}
+		return g.heapInit(k, g.heapSortsM[k])
+	}
+	keep := func(a ssa.Value, ref string, keys []string) {
+		for _, e := range g.escapingUses(a) {
+			if g.canPrecede(e, at) {
+				return
+			}
+		}
+		if g.lentAt[a][at] {
+			return // this very call borrows the object and may change it
+		}
+		in, _ := a.(ssa.Instruction)
+		if in == nil {
+			return
+		}
+		reach, ok := g.reach[in.Block()]
+		if !ok {
+			return
+		}
+		for _, k := range keys {
+			cur, okc := st.heaps[k]
+			if !okc || cur == heapBefore(k) {
+				continue
+			}
+			g.addFact(implies(reach, fmt.Sprintf("(= (select %s %s) (select %s %s))", cur, ref, heapBefore(k), ref)))
+		}
+	}
+	for v, sv := range g.vals {
+		if sv == nil || sv.S == "" {
+			continue
+		}
+		switch a := v.(type) {
+		case *ssa.MakeMap:
+			mt := a.Type().Underlying().(*types.Map)
+			vk, _, hk, _, lk, _ := g.mapHeaps(mt)
+			keep(a, sv.S, []string{vk, hk, lk})
+		case *ssa.MakeSlice:
+			et := a.Type().Underlying().(*types.Slice).Elem()
+			k, _ := g.elemHeap(g.sortOf(et))
+			keep(a, "(s-ref "+sv.S+")", []string{k})
+		case *ssa.Alloc:
+			if !a.Heap || sv.LV != nil {
+				continue
+			}
+			sn, su := g.structInfo(a.Type().(*types.Pointer).Elem())
+			if su == nil {
+				continue
+			}
+			var keys []string
+			for i := 0; i < su.NumFields(); i++ {
+				keys = append(keys, g.fieldHeapKey(sn, su.Field(i).Name()))
+			}
+			keep(a, sv.S, keys)
 		}
 	}
 }
